@@ -671,6 +671,18 @@ class DefaultCodec(Codec):
                         from_parent=True,
                     )
 
+            # A partition that was itself read from a store carries, in its index, the entries
+            # it inherited from its merge parent: they are part of it and are kept by reference.
+            if isinstance(obj, DefaultCodec.PicklePartition):
+                # noinspection PyProtectedMember
+                for k, v in obj._index.items():
+                    if v.from_parent:
+                        # noinspection PyProtectedMember
+                        data_source.reference(
+                            obj._data_source, v.content_key, v.content_key
+                        )
+                        index[k] = v
+
             # Layer current keys on top of parent's keys
             output_keys = dict()
             keys = obj.list_keys(_include_merge_parent=False)
